@@ -35,6 +35,11 @@ type c14Case struct {
 	// PreV5, a 5.0) client: the subscriber is sent it first, and what it binds or does not bind counts like any other
 	Pre   int  `json:"pre,omitempty"`
 	PreV5 bool `json:"prev5,omitempty"`
+	// kind "out": the subscriber also announces Maximum Packet Size 60 and the topic names are 38 bytes long (MaxPkt); the
+	// messages whose index is in Big carry 18 bytes: with their topic they do not fit and are dropped - BEFORE an alias is
+	// bound for them, like the expired ones: the next message on that topic still has to introduce the alias
+	MaxPkt bool  `json:"maxpkt,omitempty"`
+	Big    []int `json:"big,omitempty"`
 }
 
 type c14Obs struct {
@@ -82,6 +87,13 @@ func (p *c14Prop) Gen(r *Rng, i int, tier string) interface{} {
 		if r.Chance(30) {
 			c.Pre = 1 + r.Intn(distinct)
 			c.PreV5 = r.Chance(30)
+		} else if c.V5 && c.Max > 0 && r.Chance(35) {
+			c.MaxPkt = true
+			for k := range c.Topics {
+				if r.Chance(30) {
+					c.Big = append(c.Big, k)
+				}
+			}
 		}
 		return c
 	}
@@ -202,7 +214,11 @@ func (p *c14Prop) Run(ci interface{}) interface{} {
 			}
 		}
 		sc := b.Dial()
-		if _, err := sc.Connect(ConnectOpts{ID: "sub", Ver: ver, Clean: true, AliasMax: uint16(c.Max)}); err != nil {
+		so := ConnectOpts{ID: "sub", Ver: ver, Clean: true, AliasMax: uint16(c.Max)}
+		if c.MaxPkt && c.V5 {
+			so.MaxPacket = 60
+		}
+		if _, err := sc.Connect(so); err != nil {
 			obs.Err = "sub: " + err.Error()
 			return obs
 		}
@@ -222,10 +238,26 @@ func (p *c14Prop) Run(ci interface{}) interface{} {
 		for _, k := range c.Exp {
 			isExp[k] = true
 		}
+		isBig := map[int]bool{}
+		if c.MaxPkt && c.V5 {
+			for _, k := range c.Big {
+				isBig[k] = true
+			}
+		}
 		want := 0
 		for k, t := range c.Topics {
-			m := mkPublish(mqttp.ProtocolV50, fmt.Sprintf("al/%d", t), []byte{byte(k)}, 0, false, 0)
-			if isExp[k] {
+			tn := fmt.Sprintf("al/%d", t)
+			pl := []byte{byte(k)}
+			if c.MaxPkt {
+				tn = (tn + "/a-topic-name-of-thirty-eight-bytes-xx")[:38]
+				if isBig[k] {
+					pl = append(pl, make([]byte, 17)...)
+				}
+			}
+			m := mkPublish(mqttp.ProtocolV50, tn, pl, 0, false, 0)
+			if isBig[k] {
+				// dropped: does not count
+			} else if isExp[k] {
 				_ = m.PropertySet(mqttp.PropertyPublicationExpiry, uint32(1))
 			} else {
 				want++
@@ -373,6 +405,11 @@ func (p *c14Prop) Coq(ci interface{}, oi interface{}) string {
 		isExp := map[int]bool{}
 		for _, k := range c.Exp {
 			isExp[k] = true
+		}
+		if c.MaxPkt && c.V5 {
+			for _, k := range c.Big {
+				isExp[k] = true // dropped before an alias is bound, as an expired message is
+			}
 		}
 		ts := make([]string, len(c.Topics))
 		for i, t := range c.Topics {
